@@ -641,7 +641,7 @@ def _stream():
         for i, t in enumerate(check_arr(c["arr"])):
             ctx = {"key": f"k{i % 2}", "value": i, "metadata": {}}
             if i % 3:
-                ctx["event_time_s"] = max(0.0, t / 1e9 + skew[i % len(skew)])
+                ctx["event_time_s"] = max(0.0, (z.t0_ns + t) / 1e9 + skew[i % len(skew)])
             z.at(t, sp, "Process", ctx)
         for tag in c.get("tags", []):
             z.probe(f"probe.arr_{tag}")
